@@ -54,6 +54,19 @@ def Abs.step {V : Type} (e : EntrySpec V) (dflt : List V) (a : Abs V) : Op V →
 def Abs.run {V : Type} (e : EntrySpec V) (dflt : List V) (a : Abs V) (ops : List (Op V)) : Abs V :=
   ops.foldl (Abs.step e dflt) a
 
+/-- histories with failing and dying flushes: a failed flush persists nothing and changes nothing;
+    a flush during which the process dies has persisted either the complete current table or
+    nothing, and the restarted server holds exactly what is persisted -/
+def Abs.cstep {V : Type} (e : EntrySpec V) (dflt : List V) (a : Abs V) : COp V → Abs V
+  | .op x => Abs.step e dflt a x
+  | .failFlush => a
+  | .crashFlush persisted =>
+    let disk := if persisted then some a.cur else a.disk
+    { cur := specLoad e dflt disk, disk := disk }
+
+def Abs.crun {V : Type} (e : EntrySpec V) (dflt : List V) (a : Abs V) (ops : List (COp V)) : Abs V :=
+  ops.foldl (Abs.cstep e dflt) a
+
 /-- a first start with no table file -/
 def Abs.fresh {V : Type} (e : EntrySpec V) (dflt : List V) : Abs V :=
   { cur := specLoad e dflt none, disk := none }
